@@ -261,6 +261,15 @@ func runC19(c *Ctx) {
 			c.Pred("random-spellings", "canon-vs-spec", hxs(s1), cn == asciiLower(s1), hxs(cn), hxs(asciiLower(s1)), true)
 			c.Op("random-spellings", "lab.canon "+hxs(s1), guard(func() string { return hxs(dns.CanonicalName(s1)) }), true)
 		}
+		// the same name written without its final dot (what users type), in random case and with the last letter the only
+		// capital: making it canonical appends the root and lower-cases every ASCII letter, the last one too
+		if u := strings.TrimSuffix(s, "."); u != "" && u != s && !strings.HasSuffix(u, "\\") {
+			for _, v := range []string{randCase(r, u), asciiLower(u[:len(u)-1]) + strings.ToUpper(u[len(u)-1:]), strings.ToUpper(u)} {
+				cn := dns.CanonicalName(v)
+				c.Pred("unqualified", "canon-vs-spec", hxs(v), cn == asciiLower(v)+".", hxs(cn), hxs(asciiLower(v)+"."), true)
+				c.Op("unqualified", "lab.canon "+hxs(v), guard(func() string { return hxs(dns.CanonicalName(v)) }), true)
+			}
+		}
 		// related name: share a suffix, change case, maybe differ in one label
 		k := 0
 		if len(ls) > 0 {
